@@ -71,3 +71,14 @@ claim('C09',
       'scipy cholesky_banded / cho_solve_banded are contract stubs (LinAlgError iff a leading minor <= 0; exact solution of A x = b): the '
       'numerical factorisation L L^T = A is LAPACK behind FFI and is assumed, not checked. Floats are exact reals; non-finite input is '
       'outside the claim (isfinite is constantly true). Order 1 only where no datum sits on an interior breakpoint.', 'DESIGN.md 4/C09')
+claim('C10',
+      'iterfit (with the real bspline class and djs_reject underneath) is executed with the data vector y symbolic (n <= 5 quick, 6 thorough) '
+      'on exact-rational abscissae and inverse-variance patterns (ones, mixed squares, zeros, negatives), orders 1-4, limits from {1,2,5}, '
+      'maxiter 0-2. On every feasible rejection pattern the solver shows: curve and mask equal those of the documented fit-reject-refit '
+      'loop written independently in the harness with an exact dense solve; points with non-positive inverse variance are flagged False '
+      'and absent from the coefficient expressions; and re-running on the input permuted by each generator of the permutation group '
+      '(all 24 permutations for n=4) gives identical coefficient expressions and the identically permuted mask.',
+      'Order independence is shown for a transposition and a rotation on every dataset, which generates all permutations by '
+      'composition. Inverse variances are exact squares so that sqrt stays rational; scipy banded Cholesky pair is a contract stub '
+      '(see C09); floats are exact reals; sqrt(negative) is NaN comparing False as in numpy. n > 6, x2 fits, groupbadpix/maxrej/grow not covered.',
+      'DESIGN.md 4/C10')
